@@ -107,7 +107,7 @@ func TestGEPTypes(t *testing.T) {
 			if feats["inst/getelementptr"]+feats["constexpr/getelementptr-rich"]+feats["constexpr/getelementptr"] > 0 {
 				hx.NonTrivial(m.Text())
 			}
-			for _, k := range []string{"inst/getelementptr", "constexpr/getelementptr-rich", "gep/vector-constexpr", "gep/vector-index-on-scalar-base", "gep/struct-step", "gep/struct-index-zeroinitializer", "gep/vector-struct-index-on-scalar-base", "type/scalable-vector"} {
+			for _, k := range []string{"inst/getelementptr", "constexpr/getelementptr-rich", "gep/vector-constexpr", "gep/vector-index-on-scalar-base", "gep/struct-step", "gep/struct-index-zeroinitializer", "gep/struct-index-wider-than-i32", "gep/vector-struct-index-on-scalar-base", "type/scalable-vector"} {
 				hx.HistN(k, feats[k])
 			}
 		}
